@@ -22,6 +22,11 @@ PLAN = {
     "C05-D": ["C05", "C15"], "C06-C": ["C06"], "C06-D": ["C14", "C13"], "C07-C": ["C07"], "C07-D": ["C07"],
     "C09-C": ["C09"], "C09-D": ["C09"], "C13-C": ["C14", "C13"], "C13-D": ["C13", "C09"], "C15-C": ["C15"],
     "C15-D": ["C15"],
+    # third batch (made against the tree with all 18 fixes)
+    "C01-C": ["C01", "C04"], "C01-D": ["C09", "C13", "C14"], "C03-C": ["C03"], "C03-D": ["C03", "C01"],
+    "C10-C": ["C10"], "C10-D": ["C10"], "C11-C": ["C11"], "C11-D": ["C11"], "C14-C": ["C14", "C08"],
+    "C14-D": ["C14", "C13"], "C16-C": ["C16"], "C16-D": ["C16"], "C17-C": ["C17", "C07"], "C17-D": ["C17", "C15"],
+    "C18-C": ["C18", "C15", "C05"], "C18-D": ["C18", "C02"],
 }
 
 
